@@ -231,9 +231,15 @@ def build_cell(spec):
 
 
 def ref_volume(vecs):
-    gram = vecs @ vecs.T
-    det = np.linalg.det(gram)
-    return np.sqrt(max(det, 0.0))
+    """sqrt(det(Gram)) in 60-digit arithmetic (the Gram determinant squares the condition number,
+    so in float64 it is less accurate than the quantity it is meant to judge for flat cells)."""
+    import mpmath
+
+    with mpmath.workdps(60):
+        mat = mpmath.matrix([[mpmath.mpf(float(x)) for x in row] for row in np.atleast_2d(vecs)])
+        gram = mat * mat.T
+        det = mpmath.det(gram)
+        return float(mpmath.sqrt(det)) if det > 0 else 0.0
 
 
 def check_volume(spec):
@@ -263,7 +269,8 @@ def check_volume(spec):
             problems.append(
                 Problem(f"C20/volume/negative/nvec{nvec}", f"{name}: volume = {got!r} for {arg.tolist()}")
             )
-        elif not abs(got - ref) <= 1e-9 * max(ref, 1e-300) + 1e-300:
+        elif not abs(got - ref) <= 1e-12 * float(np.prod(np.linalg.norm(np.atleast_2d(arg), axis=1))) + 1e-12 * ref + 1e-300:
+            # float64 determinant: backward error ~ eps * product of the vector lengths
             problems.append(
                 Problem(
                     f"C20/volume/value/nvec{nvec}",
